@@ -1,6 +1,10 @@
 package main
 
 import (
+	"bytes"
+	"crypto/aes"
+	"crypto/cipher"
+	"encoding/base64"
 	"encoding/binary"
 	"fmt"
 	"io"
@@ -223,6 +227,12 @@ func buildEntries() []Entry {
 			}
 		}
 		add("cmd."+s.Name+".Unmarshal", seeds, func(in []byte) { c := s.New(); c.Unmarshal(in) })
+		add("cmd."+s.Name+".Unmarshal+use", seeds, func(in []byte) {
+			c := s.New()
+			if _, err := c.Unmarshal(in); err == nil {
+				useDecoded(c)
+			}
+		})
 		// a batched (AndX) message: the first command names a second one of the same kind and
 		// where it starts; the second one ends the chain. Corruptions of the link fields of such
 		// a seed reach decoders that follow the chain.
@@ -252,6 +262,16 @@ func buildEntries() []Entry {
 		}
 	}
 	add("message.Unmarshal", allMsgs, func(in []byte) { message.NewMessage().Unmarshal(in) })
+	add("message.Unmarshal+use", allMsgs, func(in []byte) {
+		m := message.NewMessage()
+		if err := m.Unmarshal(in); err == nil {
+			if m.Command != nil {
+				useDecoded(m.Command)
+			}
+			useDecoded(m.Header)
+			m.Marshal()
+		}
+	})
 
 	// ---------------- SMB building blocks and types
 	add("parameters.Unmarshal", [][]byte{{0}, {2, 1, 2, 3, 4}, {1, 0xAA, 0xBB, 9, 9}}, func(in []byte) { parameters.NewParameters().Unmarshal(in) })
@@ -447,6 +467,12 @@ func buildEntries() []Entry {
 		}
 	}
 	add("keycredential.KeyCredential.FromBytes", kcSeeds, func(in []byte) { (&keycredential.KeyCredential{}).FromBytes(in) })
+	add("keycredential.KeyCredential.FromBytes+use", kcSeeds, func(in []byte) {
+		k := &keycredential.KeyCredential{}
+		if err := k.FromBytes(in); err == nil {
+			useDecoded(k)
+		}
+	})
 	dnSeed := []byte("B:8:01020304:CN=user,DC=corp,DC=local")
 	if kcb != nil {
 		dnSeed2 := []byte(fmt.Sprintf("B:%d:%X:CN=u,DC=c", 2*len(kcb), kcb))
@@ -479,7 +505,39 @@ func buildEntries() []Entry {
 	enc, _ := gppp.GPPPEncrypt("Password1!")
 	enc2, _ := gppp.GPPPEncrypt("")
 	addText("gppp.GPPPDecryptBase64", strs(enc, enc2, strings.TrimRight(enc, "=")), func(in []byte) { gppp.GPPPDecryptBase64(string(in)) })
-	add("gppp.GPPPDecryptBytes", [][]byte{make([]byte, 16), make([]byte, 32)}, func(in []byte) { gppp.GPPPDecryptBytes(in) })
+	// ciphertexts of chosen plaintexts under the published key: what a hostile SYSVOL can hold.
+	// Plaintexts of every length 0..20 over a few byte values, byte-order marks, lone surrogates,
+	// odd lengths (not whole UTF-16 units), each with valid PKCS#7 padding and with broken padding
+	gppSeeds := [][]byte{make([]byte, 16), make([]byte, 32)}
+	if blk, err := aes.NewCipher(gppp.GPPP_AES_KEY); err == nil {
+		encrypt := func(pt []byte) []byte {
+			ct := make([]byte, len(pt))
+			cipher.NewCBCEncrypter(blk, make([]byte, 16)).CryptBlocks(ct, pt)
+			return ct
+		}
+		var plains [][]byte
+		for n := 0; n <= 20; n++ {
+			for _, c := range []byte{0xFF, 0x00, 0xFE, 0xD8, 0x41} {
+				plains = append(plains, bytes.Repeat([]byte{c}, n))
+			}
+		}
+		plains = append(plains, []byte{0xFF, 0xFE}, []byte{0xFE, 0xFF}, []byte{0xEF, 0xBB, 0xBF}, []byte{0xFF, 0xFE, 0x41, 0x00}, []byte{0x00, 0xD8}, []byte{0x00, 0xD8, 0x00, 0xD8}, []byte{0x00, 0xDC, 0x41})
+		for _, pt := range plains {
+			pad := 16 - len(pt)%16
+			gppSeeds = append(gppSeeds, encrypt(append(append([]byte{}, pt...), bytes.Repeat([]byte{byte(pad)}, pad)...)))
+		}
+		for _, last := range []byte{0, 17, 16, 0xFF} { // a full block whose last byte is not a valid pad
+			blkPt := bytes.Repeat([]byte{0x41}, 16)
+			blkPt[15] = last
+			gppSeeds = append(gppSeeds, encrypt(blkPt))
+		}
+	}
+	add("gppp.GPPPDecryptBytes", gppSeeds, func(in []byte) { gppp.GPPPDecryptBytes(in) })
+	var gpp64 [][]byte
+	for _, ct := range gppSeeds {
+		gpp64 = append(gpp64, []byte(base64.StdEncoding.EncodeToString(ct)))
+	}
+	addText("gppp.GPPPDecryptBase64.crafted", gpp64, func(in []byte) { gppp.GPPPDecryptBase64(string(in)) })
 	es[len(es)-1].Small = true
 	add("pkcs7.Unpad", [][]byte{{1, 2, 3, 4, 4, 4, 4}, {16, 16, 16, 16, 16, 16, 16, 16, 16, 16, 16, 16, 16, 16, 16, 16}, {1}}, func(in []byte) { pkcs7.Unpad(in) })
 	es[len(es)-1].Small = true
